@@ -129,6 +129,16 @@ class Executor:
             elif policy == 'consumers-first':
                 # prefer compile/link steps over generators whenever the graph allows: deepest first, generators last
                 pick = max(ready, key=lambda e: (depth(e), -consumers.get(e.idx, 0), e.idx))
+            elif policy == 'producers-first':
+                # the order most forgiving to a missing edge: everything that generates files first, then compiles, then links
+                def stage(e: Edge) -> int:
+                    r = e.rule
+                    if r.endswith('_COMPILER') or r.endswith('_PCH'):
+                        return 1
+                    if r.endswith('_LINKER') or r in ('STATIC_LINKER', 'SHSYM'):
+                        return 2
+                    return 0
+                pick = min(ready, key=lambda e: (stage(e), e.idx))
             elif policy == 'generators-last':
                 pick = min(ready, key=lambda e: (consumers.get(e.idx, 0), -e.idx))
             else:
